@@ -66,6 +66,7 @@ type result3 struct {
 	flat    bool
 	status  string
 	skipped bool
+	cons    []arapCons // arap3: the positional constraints of this frame (sorted by vertex)
 }
 
 func pow2(k int) bool { return k > 0 && k&(k-1) == 0 }
@@ -100,13 +101,13 @@ func runOp3(c *hlib.Ctx, st *state3, m *model3d.Mesh, forced int) result3 {
 		}
 		return keep, ids
 	}
-	op := c.Rng.Intn(16)
+	op := c.Rng.Intn(17)
 	if forced >= 0 {
 		op = forced
 	}
 	// a kind that has timed out once is not run again (every timeout leaves a spinning goroutine)
 	kindOf := []string{"decimate3", "decimate3", "elimcoplanar3", "elimcoplanar3", "elimedges3", "flip3", "subdivedges3",
-		"subdivedges3", "loop3", "subdivider3", "blur3", "blur3", "smooth3", "arap3", "flatten3", "flatten3"}
+		"subdivedges3", "loop3", "subdivider3", "blur3", "blur3", "smooth3", "arap3", "flatten3", "flatten3", "blurf3"}
 	if timeouts[kindOf[op]] >= 1 {
 		c.Stat("not-run-after-a-timeout:"+kindOf[op], 1)
 		r.skipped = true
@@ -221,8 +222,14 @@ func runOp3(c *hlib.Ctx, st *state3, m *model3d.Mesh, forced int) result3 {
 			return r
 		}
 		r.kind = "loop3"
-		r.status = watchdog(func() { r.out = model3d.LoopSubdivision(m, 1) })
-		ok := st.exact && bits < 36
+		iters := 1
+		if nf*16 <= 900 && c.Rng.Intn(2) == 0 {
+			iters = 2
+		}
+		r.status = watchdog(func() { r.out = model3d.LoopSubdivision(m, iters) })
+		// every mask weight is a dyadic with at most 7 fractional bits (valences 3,4,6,8,12,16; new
+		// vertices have valence 6), so `iters` iterations stay exact when bits + 7*iters < 43
+		ok := st.exact && bits+7*iters < 43
 		for k := range valences3(m) {
 			if !(k == 3 || k == 4 || k == 6 || k == 8 || k == 12 || k == 16) {
 				ok = false
@@ -232,6 +239,13 @@ func runOp3(c *hlib.Ctx, st *state3, m *model3d.Mesh, forced int) result3 {
 		r.coords = ok
 		if ok {
 			r.params = []string{"geom"}
+		}
+		r.params = append(r.params, fmt.Sprintf("iters=%d", iters))
+		if iters > 1 {
+			c.Stat("loop3-iterations>1", 1)
+			if ok {
+				c.Stat("loop3-iterations>1(exact)", 1)
+			}
 		}
 	case 9: // Subdivider
 		r.kind = "subdivider3"
@@ -301,21 +315,27 @@ func runOp3(c *hlib.Ctx, st *state3, m *model3d.Mesh, forced int) result3 {
 			}
 		}
 		var rates []float64
-		exactMode := st.exact && bits < 30 && (allPow2 || allPow2m1) && c.Rng.Intn(4) != 0
-		if exactMode {
-			// a single dyadic rate: the model recomputes every vertex exactly
-			if allPow2 {
-				rates = []float64{[]float64{0, 1, 0.5, 0.25, 0.75, 1.5, -0.5}[c.Rng.Intn(7)]}
-			} else {
-				rates = []float64{-1}
+		kmax := 0
+		for k := range vals {
+			if k > kmax {
+				kmax = k
 			}
-			r.params = []string{"geom", hlib.RatStr(rates[0])}
+		}
+		if st.exact && bits < 40 && (allPow2 || allPow2m1) && c.Rng.Intn(4) != 0 {
+			// 1..4 dyadic rates within the exactness budget: the model recomputes every iteration
+			rates = pickRates(c, bits, kmax, !allPow2)
+		}
+		if rates != nil {
+			r.params = ratesParams(rates)
 			r.coords = true
 			r.exact = true
+			if len(rates) > 1 {
+				c.Stat("exact-multi-rate-blur:blur3", 1)
+			}
 		} else if c.Rng.Intn(3) == 0 {
-			// rate 0 is the identity on every mesh, exactly
-			rates = []float64{0}
-			r.params = []string{"geom", "0/1"}
+			// rate 0 iterations are the identity on every mesh, exactly
+			rates = make([]float64, 1+c.Rng.Intn(3))
+			r.params = ratesParams(rates)
 			r.coords = true
 			r.exact = st.exact
 			r.flat = st.flat
@@ -358,20 +378,18 @@ func runOp3(c *hlib.Ctx, st *state3, m *model3d.Mesh, forced int) result3 {
 			r.skipped = true
 			return r
 		}
-		cons := model3d.ARAPConstraints{}
-		nc := 1 + c.Rng.Intn(3)
-		off := model3d.XYZ(dy(c, 1, 3), dy(c, 1, 3), dy(c, 1, 3))
-		rigid := c.Rng.Intn(3) == 0
-		for i := 0; i < nc; i++ {
-			v := vs[c.Rng.Intn(len(vs))]
-			if rigid {
-				cons[v] = v.Add(off)
-			} else if i == 0 {
-				cons[v] = v
-			} else {
-				cons[v] = v.Add(model3d.XYZ(dy(c, 1, 3), dy(c, 1, 3), dy(c, 1, 3)).Scale(0.25))
-			}
+		emitArapOp(c, st, m)
+		if forceSeq || c.Rng.Intn(2) == 0 {
+			runArapSeq(c, st, m, vs, &r)
+			return r
 		}
+		nc := 1 + c.Rng.Intn(3)
+		var handles []model3d.Coord3D
+		perm := c.Rng.Perm(len(vs))
+		for i := 0; i < nc; i++ {
+			handles = append(handles, vs[perm[i]])
+		}
+		cons, rigid, off := arapTargets(c, handles)
 		var mapping map[model3d.Coord3D]model3d.Coord3D
 		r.status = watchdog(func() {
 			var a *model3d.ARAP
@@ -384,6 +402,8 @@ func runOp3(c *hlib.Ctx, st *state3, m *model3d.Mesh, forced int) result3 {
 			r.out = a.Deform(cons)
 			mapping = a.DeformMap(cons, nil)
 		})
+		r.cons = sortedCons(cons)
+		r.params = []string{fmt.Sprintf("deform,rigid=%v", rigid)}
 		if r.status == "ok" {
 			// positional constraints must be met exactly
 			keys := make([]model3d.Coord3D, 0, len(cons))
@@ -411,6 +431,8 @@ func runOp3(c *hlib.Ctx, st *state3, m *model3d.Mesh, forced int) result3 {
 				}
 			}
 		}
+	case 16: // BlurFiltered with a symmetric neighbour filter
+		runBlurFiltered(c, st, m, bits, &r)
 	default: // FlattenBase
 		r.kind = "flatten3"
 		ang := []float64{0, 0, math.Pi/2 - 0.01, 0.3}[c.Rng.Intn(4)]
